@@ -189,6 +189,15 @@ func gen(r *Rng, tier string, emit Emit) {
 			emit("C", "edit", args...)
 		}
 	}
+	// a file that reaches 16 MiB in an FFSv2 volume next to a carrier of a nested volume: the
+	// volume has to become FFSv3 whatever the order of the two (built in the worker)
+	nf3 := 4
+	if tier == "thorough" {
+		nf3 = 40
+	}
+	for it := 0; it < nf3; it++ {
+		emit("P", "p_c02_ffs3", N(r.Fork(uint64(6960000+it)).U64()))
+	}
 }
 
 func emitTables(emit Emit, c editops.ECase) {
